@@ -151,6 +151,7 @@ func diffCases(r *vf.Run, groupMode bool) []diffCase {
 		}
 	} else {
 		cases = append(cases, diffCase{id: "manygroups", rows: r.Pick(9000, 30000)})
+		cases = append(cases, diffCase{id: "gb-product", rows: 3000})
 		if r.Thorough() {
 			cases = append(cases, diffCase{id: "groups70000", rows: 70000})
 		}
@@ -170,7 +171,7 @@ func diffCases(r *vf.Run, groupMode bool) []diffCase {
 		if c.id == "dense" {
 			c.opts = gen.DatasetOpts{Rows: c.rows, Crafted: "dense"}
 		}
-		if c.id == "container-edges" || c.id == "wide-rows" {
+		if c.id == "container-edges" || c.id == "wide-rows" || c.id == "gb-product" {
 			c.opts = gen.DatasetOpts{Rows: c.rows, Crafted: c.id}
 		}
 		if strings.HasPrefix(c.id, "concat") {
@@ -257,6 +258,14 @@ func genQueries(r *vf.Run, rng *rand.Rand, ds *gen.Dataset, n int, groupMode boo
 		for _, c := range cols {
 			if k := len(ds.Vals[c]); k*k <= 4*gbBudget {
 				small = append(small, c)
+			}
+		}
+		if ds.Cols["u"] && ds.Cols["t"] && ds.Cols["s"] && ds.Cols["m"] && ds.Unique == "u" {
+			// the crafted product dataset: refinement steps of 66 000 to 120 000 (group, value) pairs, outside the work
+			// budget of the generated lists
+			notz := oracle.Not(oracle.Eq("kind", "z"))
+			for i, gb := range [][]string{{"u", "t"}, {"t", "u"}, {"m", "s"}, {"s", "m"}, {"kind", "u", "t"}} {
+				qs = append(qs, genQuery{id: fmt.Sprintf("product%d-all", i), e: all, gb: gb}, genQuery{id: fmt.Sprintf("product%d-notz", i), e: notz, gb: gb})
 			}
 		}
 		if len(small) > 0 {
